@@ -86,16 +86,16 @@ def run_case(case):
         counters[k] = counters.get(k, 0) + v
 
     b = progcase.Built(prog).build_sources()
+    method = case.get("shuffle") or derive_rng("C17", shash(prog)).choice(["tasks", "tasks", "disk"])
     try:
         b.eval_pd()
-        b.eval_dx()
+        b.eval_dx(method)
     except Exception:
         return {"status": "refused", "counters": {"build_refused": 1}}
     flags = {"order": b.out_pd.order, "index": b.out_pd.index}
     q = b.out_dx
     out = prog["out"]
     ns = len(prog["sources"])
-    method = case.get("shuffle") or derive_rng("C17", shash(prog)).choice(["tasks", "tasks", "disk"])
     viol = None
     with dask.config.set({"dataframe.shuffle.method": method}):
         try:
@@ -123,7 +123,7 @@ def run_case(case):
                 sets.setdefault("cut_refusals", []).append(f"{kind}:{nk}:{type(ex).__name__}")
                 continue
             # re-apply the remaining steps on top of the cut value
-            vals = list(b.dx_vals[: j + 1])
+            vals = list(b.dx_vals[: max(j + 1, ns)])  # all sources stay, also when an earlier source is the cut
             vals[j] = c
             try:
                 for si in range(max(j + 1, ns), ns + len(prog["steps"])):
@@ -155,7 +155,12 @@ def run_case(case):
             if sd:
                 viol = dict(sd, oracle="cut_schema", cut=[j, kind], node=nk)
                 break
-            if _divs(oc.expr) != ref_divs and kind != "legacy" or (kind == "legacy" and _divs(oc.expr) != ref_divs and oc.known_divisions and ref_divs[0] is not None):
+            # quantile divisions of a set_index / sort_values AFTER the cut are sampled from its input partitioning, which
+            # the cut legitimately changes (it blocks push-downs below the sort): divisions are then not comparable
+            sort_after_cut = any("sort" in programs.OPS[prog["steps"][si - ns]["op"]].tags for si in range(max(j + 1, ns), ns + len(prog["steps"])))
+            if sort_after_cut:
+                bump("divisions_not_comparable_sort_after_cut")
+            elif _divs(oc.expr) != ref_divs and kind != "legacy" or (kind == "legacy" and _divs(oc.expr) != ref_divs and oc.known_divisions and ref_divs[0] is not None):
                 viol = {"oracle": "cut_divisions", "symptom": "divisions", "got": repr(_divs(oc.expr))[:200], "exp": repr(ref_divs)[:200], "cut": [j, kind], "node": nk}
                 break
             if (j + len(kind)) % 4 == 0:
